@@ -54,6 +54,55 @@ theorem C19_gate_history (reuse : Bool) (c : CtxSt) (h : List (TurnIn × Oracles
     · subst hx; exact C19_gate_monitor c a.1 a.2
     · exact ih _ x hx
 
+/-- Planner histories: a turn whose planner step ran and did not answer `reflection = true` (a fallback,
+or an explicit `false`) and whose Plan object carries no flag is inert. -/
+def plannerOk (x : (Option PlannerOut × TurnIn × Oracles) × TurnOut) : Bool :=
+  match x.1.1 with
+  | some (.answer true) => true
+  | none => true
+  | some _ => x.1.2.1.planFlag || (!x.2.called && x.2.written.isEmpty && x.2.log.isNone)
+
+/-- **The plan leg of the gate follows THIS turn's planner answer**: on one long-lived state, whatever the
+earlier turns asked for (any initial flag, any ctx state, reused or fresh ctx), a turn whose LLM planner
+fell back or answered `reflection = false` computes, writes and logs nothing. -/
+theorem C19_gate_planner_history (reuse : Bool) (f : Bool) (c : CtxSt)
+    (h : List (Option PlannerOut × TurnIn × Oracles)) :
+    ∀ x ∈ h.zip (runHistP true reuse f c h), plannerOk x = true := by
+  induction h generalizing f c with
+  | nil => intro x hx; simp [runHistP] at hx
+  | cons a r ih =>
+    intro x hx
+    obtain ⟨p, t, o⟩ := a
+    simp only [runHistP, List.zip_cons_cons] at hx
+    rcases List.mem_cons.mp hx with hx | hx
+    · subst hx
+      have closed : ∀ q, flagAfter f (some q) = false → t.planFlag = false →
+          gateOpen { t with stateFlag := flagAfter f (some q) } = false := by
+        intro q hq hp; simp [gateOpen, hq, hp]
+      cases p with
+      | none => simp [plannerOk]
+      | some q =>
+        cases q with
+        | fallback =>
+          rcases Bool.eq_false_or_eq_true t.planFlag with hp | hp
+          · simp [plannerOk, hp]
+          · obtain ⟨h1, h2, h3⟩ := C19_gate c _ o (closed .fallback rfl hp)
+            simp [plannerOk, h1, h2, h3]
+        | answer b =>
+          cases b with
+          | true => simp [plannerOk]
+          | false =>
+            rcases Bool.eq_false_or_eq_true t.planFlag with hp | hp
+            · simp [plannerOk, hp]
+            · obtain ⟨h1, h2, h3⟩ := C19_gate c _ o (closed (.answer false) rfl hp)
+              simp [plannerOk, h1, h2, h3]
+    · exact ih _ _ x hx
+
+/-- The flag a turn sees does not depend on earlier turns once its own planner step ran. -/
+theorem C19_planner_flag_this_turn (prev prev' : Bool) (p : PlannerOut) :
+    flagAfter prev (some p) = flagAfter prev' (some p) ∧ flagAfter prev (some .fallback) = false := by
+  cases p <;> simp [flagAfter]
+
 def exCfg : Cfg :=
   { allow := true, backend := sRule, topk := 2, limit := 3, embed := false, opsCap := some 1,
     wallMs := some 5, fxEnabled := false, fxPathOk := false }
